@@ -41,6 +41,14 @@ C10T = [("Mc.Props.C10", "Mc.C10." + t) for t in ["C10_never_add_when_deleting",
 C19T = [("Mc.Props.C19", "Mc.C19." + t) for t in ["C19_success_status", "C19_304_body", "C19_304_body_all_schedules", "C19_429", "C19_retry_table",
         "C19_other_status_error", "C19_304_needs_inm", "C19_strict_table", "C19_plain_cache_untouched", "run_inv"]]
 
+C03T = [("Mc.Props.C03", "Mc.C03.C03_key_format_core"), ("Mc.Props.C03", "Mc.C03.C03_key_format_group"), ("Mc.Props.C03", "Mc.C03.C03_key_injective"), ("Mc.Props.C03", "Mc.C03.C03_inner_key_qualified"), ("Mc.Props.C03", "Mc.C03.C03_inner_key_plain"), ("Mc.Props.C03", "Mc.C03.C03_inner_key_iff"), ("Mc.Props.C03", "Mc.C03.C03_groups_total"), ("Mc.Props.C03", "Mc.C03.C03_groups_total_json"), ("Mc.Props.C03", "Mc.C03.C03_attachment_groups_total"), ("Mc.Props.C03", "Mc.C03.C03_claim_step"), ("Mc.Props.C03", "Mc.C03.C03_claim_groups_total"), ("Mc.Props.C03", "Mc.C03.C03_convert_namespace"), ("Mc.Props.C03", "Mc.C03.C03_convert_sound"), ("Mc.Props.C03", "Mc.C03.C03_convert_complete"), ("Mc.Props.C03", "Mc.C03.C03_convert_cluster"), ("Mc.Props.C03", "Mc.C03.C03_namespace_default")]
+C07T = [("Mc.Props.C07", "Mc.C07.C07_gate"), ("Mc.Props.C07", "Mc.C07.C07_child_happy"), ("Mc.Props.C07", "Mc.C07.C07_wait"), ("Mc.Props.C07", "Mc.C07.C07_complete"), ("Mc.Props.C07", "Mc.C07.C07_complete_forall"), ("Mc.Props.C07", "Mc.C07.C07_progress"), ("Mc.Props.C07", "Mc.C07.C07_hook_order"), ("Mc.Props.C07", "Mc.C07.C07_hook_order_first"), ("Mc.Props.C07", "Mc.C07.C07_one_move"), ("Mc.Props.C07", "Mc.C07.C07_one_move_latest"), ("Mc.Props.C07", "Mc.C07.C07_one_name"), ("Mc.Props.C07", "Mc.C07.C07_condition"), ("Mc.Props.C07", "Mc.C07.C07_condition_exact"), ("Mc.Props.C07", "Mc.C07.C07_condition_error"), ("Mc.Props.C07", "Mc.C07.C07_claims_filtered"), ("Mc.Props.C07", "Mc.C07.C07_claims_general"), ("Mc.Props.C07", "Mc.C07.C07_claims_complete"), ("Mc.Props.C07", "Mc.C07.C07_claims_wins")]
+C09T = [("Mc.Props.C09", "Mc.C09.C09_tail_no_revision_write"), ("Mc.Props.C09", "Mc.C09.C09_head_no_child_mutation_claim"), ("Mc.Props.C09", "Mc.C09.C09_head_no_child_mutation_related"), ("Mc.Props.C09", "Mc.C09.C09_head_no_child_mutation_revisions"), ("Mc.Props.C09", "Mc.C09.C09_head_no_child_mutation"), ("Mc.Props.C09", "Mc.C09.C09_order"), ("Mc.Props.C09", "Mc.C09.C09_order_full"), ("Mc.Props.C09", "Mc.C09.C09_manageRevisions_failed_write_stops"), ("Mc.Props.C09", "Mc.C09.C09_failed_revision_write_stops_partial"), ("Mc.Props.C09", "Mc.C09.C09_failed_revision_write_stops_children"), ("Mc.Props.C09", "Mc.C09.C09_failed_revision_write_stops")]
+C11T = [("Mc.Props.C11", "Mc.C11.C11_footprint"), ("Mc.Props.C11", "Mc.C11.C11_body"), ("Mc.Props.C11", "Mc.C11.C11_uid_guard"), ("Mc.Props.C11", "Mc.C11.C11_skip_equal"), ("Mc.Props.C11", "Mc.C11.C11_retry_bound"), ("Mc.Props.C11", "Mc.C11.C11_after_child_errors"), ("Mc.Props.C11", "Mc.C11.C11_status_follows_children"), ("Mc.Props.C11", "Mc.C11.C11_write_when_different")]
+C15T = [("Mc.Props.C15", "Mc.C15.C15_selection_type_invalid"), ("Mc.Props.C15", "Mc.C15.C15_selection_type_byNames"), ("Mc.Props.C15", "Mc.C15.C15_selection_type_byLabels"), ("Mc.Props.C15", "Mc.C15.C15_byLabels_triggers"), ("Mc.Props.C15", "Mc.C15.C15_byNames_triggers"), ("Mc.Props.C15", "Mc.C15.C15_selected_triggers"), ("Mc.Props.C15", "Mc.C15.C15_once_per_generation_cached"), ("Mc.Props.C15", "Mc.C15.C15_once_per_generation_stored"), ("Mc.Props.C15", "Mc.C15.C15_requests"), ("Mc.Props.C15", "Mc.C15.C15_listed_triggers"), ("Mc.Props.C15", "Mc.C15.C15_invalid_is_error"), ("Mc.Props.C15", "Mc.C15.C15_foreign_namespace_error"), ("Mc.Props.C15", "Mc.C15.C15_unknown_resource_error"), ("Mc.Props.C15", "Mc.C15.C15_bad_rule_fails")]
+C16T = [("Mc.Props.C16", "Mc.C16.C16_string_map_pointwise"), ("Mc.Props.C16", "Mc.C16.C16_string_map_uniq"), ("Mc.Props.C16", "Mc.C16.C16_changed_flag"), ("Mc.Props.C16", "Mc.C16.C16_flag_false_of_satisfied"), ("Mc.Props.C16", "Mc.C16.C16_selector_conjunction"), ("Mc.Props.C16", "Mc.C16.C16_rule_for"), ("Mc.Props.C16", "Mc.C16.C16_undeclared_never_matches"), ("Mc.Props.C16", "Mc.C16.C16_attachment_filter_sound"), ("Mc.Props.C16", "Mc.C16.C16_attachment_filter_complete"), ("Mc.Props.C16", "Mc.C16.C16_attachment_filter"), ("Mc.Props.C16", "Mc.C16.C16_no_change_no_request"), ("Mc.Props.C16", "Mc.C16.C16_bad_status_no_request")]
+C10ST = [("Mc.Props.C10Sync", "Mc.C10.C10_add_first_partial"), ("Mc.Props.C10Sync", "Mc.C10.C10_add_skipped_when_present"), ("Mc.Props.C10Sync", "Mc.C10.C10_failed_finalizer_phase"), ("Mc.Props.C10Sync", "Mc.C10.C10_failed_add_stops"), ("Mc.Props.C10Sync", "Mc.C10.C10_add_phase_starts_with_get"), ("Mc.Props.C10Sync", "Mc.C10.C10_dying_parent_inert_claims"), ("Mc.Props.C10Sync", "Mc.C10.C10_dying_parent_only_parent"), ("Mc.Props.C10Sync", "Mc.C10.C10_dying_parent_guard"), ("Mc.Props.C10Sync", "Mc.C10.C10_dying_parent_only_parent_decorator"), ("Mc.Props.C10Sync", "Mc.C10.C10_dying_parent_guard_decorator")]
+
 PROPS = {
     "C19": {
         "theorems": C19T,
@@ -59,7 +67,15 @@ PROPS = {
                      "non-trivial = an ownership edit or another child update was attempted", ["claim"]),
     "C06": sync_prop(C06T, ["update-child", "delete-child", "create-child"],
                      "non-trivial = some child write was accepted", ["children"]),
-    "C10": sync_prop(C10T, ["update-parent", "hook-finalize", "create-child"],
+    "C03": sync_prop(C03T, ["hook-sync", "hook-finalize"],
+                     "non-trivial = a sync or finalize hook was called (its children map is compared with the owned set computed from the cache snapshot)", ["hook", "claim"]),
+    "C09": sync_prop(C09T, ["create-revision", "update-revision", "delete-revision"],
+                     "non-trivial = a ControllerRevision was written in the sync", ["revisions", "children"]),
+    "C11": sync_prop(C11T, ["updateStatus-parent", "failed-updateStatus"],
+                     "non-trivial = a parent status write was attempted", ["status", "outcome"]),
+    "C16": sync_prop(C16T, ["update-parent", "updateStatus-parent"],
+                     "non-trivial = the decorated object was written (decorator traces); composite traces are not judged", ["parent", "status", "hook"]),
+    "C10": sync_prop(C10T + C10ST, ["update-parent", "hook-finalize", "create-child"],
                      "non-trivial = the parent was edited, the finalize hook called, or a child created", ["finalizer", "parent", "hook", "children"]),
 
     "C05": {
